@@ -162,6 +162,20 @@ def collision_docs():
     return spliced_docs(blocks, 40)
 
 
+def library_docs():
+    """Several blocks of one contract that link against DIFFERENT libraries (the parser numbers library references per
+    block, so the first one of every block has index 0), each block optimizable."""
+    P, I = B.P, B.I
+    libs = ["__$aaaa1111bbbb2222cccc3333dddd4444ee$__", "__$5555ffff6666aaaa7777bbbb8888cccc99$__",
+            "__$0123456789abcdef0123456789abcdef01$__"]
+    blocks = []
+    for i, l in enumerate(libs):
+        blocks.append([I("PUSHLIB", l), P(0), I("ADD"), I("DUP1"), I("POP"), I("STOP")])
+        blocks.append([P(1), P(1), I("ADD"), I("PUSHLIB", l), I("PUSHLIB", libs[(i + 1) % 3]), I("SWAP1"), I("POP"),
+                       I("SWAP1"), I("POP"), I("STOP")])
+    return spliced_docs(blocks, 40) + spliced_docs(blocks[::-1], 40)
+
+
 def decorated_docs(blocks, per_doc=120):
     """The optional per-item fields solc emits: `modifierDepth` (code inlined from a modifier) on every item, tag and
     JUMPDEST included, and `jumpType` on JUMPs."""
@@ -186,6 +200,7 @@ def unit_sets(tier):
         yield "shipped(4 smallest)", [("file", f) for f in shipped[:4]], c1[:1] + [c for c in c1 if "-storage" in c or "-size" in c]
         yield "spliced(MIXED,3)", [("doc", d) for d in spliced_docs(list(B.tree(B.MIXED, 3)))], c1
         yield "pseudo-collisions", [("doc", d) for d in collision_docs()], c1[:1]
+        yield "libraries", [("doc", d) for d in library_docs()], c1[:1] + [c for c in c1 if "-size" in c]
         yield "decorated(MIXED,3)/3", [("doc", d) for d in decorated_docs(list(B.tree(B.MIXED, 3))[::3])], c1[:1] + [c for c in c1 if "-storage" in c]
         gd = list(c15.gen_docs())
         yield "grammar", [("doc", d) for d in gd[::3] + gd[-3:]], c1[:1] + [c for c in c1 if "-push0" in c]
@@ -196,6 +211,7 @@ def unit_sets(tier):
         yield "spliced(CORE,3)", [("doc", d) for d in spliced_docs(list(B.tree(B.CORE, 3)), 400)], c1
         yield "grammar", [("doc", d) for d in c15.gen_docs()], c1
         yield "pseudo-collisions", [("doc", d) for d in collision_docs()], c1
+        yield "libraries", [("doc", d) for d in library_docs()], c1
         yield "decorated(MIXED,3)", [("doc", d) for d in decorated_docs(list(B.tree(B.MIXED, 3)))], c1
 
 
